@@ -381,7 +381,7 @@ Section Life.
       unfold get_singleton in H. rewrite (FactoryBasics_get_lookup_false (reg st2) n) in H.
       destruct (match alookup n (L1 (reg st2)) with Some v0 => Some v0 | None => alookup n (L2 (reg st2)) end) as [e|].
       + destruct w as [wv|].
-        * destruct (stale_dependents vt st2 n); [|discriminate]. inversion H; subst. apply Hfin.
+        * destruct (stale_dependents vt st2 n _); [|discriminate]. inversion H; subst. apply Hfin.
         * inversion H; subst. apply Hfin.
       + inversion H; subst. apply Hfin.
   Qed.
